@@ -204,3 +204,103 @@ Lemma facts_shape_forwards :
   vector_reserve = ["Reserve(count)"]%string /\ vector_shrink_to_fit = ["Shrink()"]%string /\
   vector_clear = ["Clear(CXXDefaultArgExpr)"]%string /\ vector_pop_back = ["RemoveBack(CXXDefaultArgExpr)"]%string.
 Proof. repeat split; reflexivity. Qed.
+
+(* ================================================================== Array::AddBack(Item&&) from the AST facts *)
+(* pvAddBackGrow(Item&& item, true_type): itemIndex = pvIndexOf(item) BEFORE pvGrow; `items = GetItems()` AFTER it; the new item is
+   move-constructed from (itemIndex == maxSize ? item : items[itemIndex]), i.e. an aliased element is re-indexed in the NEW buffer *)
+Inductive mact := MNop | MIndexOf | MGrow | MRefreshItems | MMoveCreateCond | MSetCount.
+Definition mact_of (s : string) : option mact :=
+  if String.eqb s "decl initCount = GetCount()" then Some MNop
+  else if String.eqb s "decl newCount = (initCount + 1)" then Some MNop
+  else if String.eqb s "decl itemIndex = pvIndexOf(item)" then Some MIndexOf
+  else if String.eqb s "pvGrow(newCount, add)" then Some MGrow
+  else if String.eqb s "decl items = GetItems()" then Some MRefreshItems
+  else if String.eqb s "operator()(ctor{GetMemManager(), move(((itemIndex == maxSize) ? item : items[itemIndex]))}, (items + initCount))" then Some MMoveCreateCond
+  else if String.eqb s "SetCount(newCount)" then Some MSetCount
+  else None.
+
+Section RunM.
+Variable growOnReserve : bool.
+Variables cnt0 it : Z.
+Definition aliasedM : bool := Z.leb 0 it && Z.ltb it cnt0.
+(* state: cells, count, capacity, has the buffer been replaced, was itemIndex taken while `item` was valid, is `items` the current buffer *)
+Fixpoint run_macts (l : list (option mact)) (items : Z -> Z) (cnt cap_ : Z) (grown indexed fresh : bool) : outcome ((Z -> Z) * Z * Z) :=
+  match l with
+  | [] => Ok (items, cnt, cap_)
+  | None :: _ => Stuck
+  | Some a :: t =>
+    match a with
+    | MNop => run_macts t items cnt cap_ grown indexed fresh
+    | MIndexOf => if grown && aliasedM then Stuck else run_macts t items cnt cap_ grown true fresh     (* the address of a dead object is not compared *)
+    | MGrow => match GrowCapacity growOnReserve cap_ (cnt0 + 1) 0 false with
+               | Ok cap' => run_macts t items cnt cap' true indexed false
+               | Stuck => Stuck | Fuel => Fuel | Exn => Exn
+               end
+    | MRefreshItems => run_macts t items cnt cap_ grown indexed true
+    | MMoveCreateCond =>
+      if negb indexed || negb (Z.ltb cnt0 cap_) then Stuck else
+      let v := if aliasedM then (if fresh then items it else poison)     (* items[itemIndex] through the CURRENT items pointer *)
+               else items it in                                           (* an external object is still alive *)
+      run_macts t (upd items cnt0 v) cnt cap_ grown indexed fresh
+    | MSetCount => if Z.leb (cnt0 + 1) cap_ then run_macts t items (cnt0 + 1) cap_ grown indexed fresh else Stuck
+    end
+  end.
+End RunM.
+
+(* AddBack(Item&& item): if (GetCount() < GetCapacity()) pvAddBackNogrow(Creator(std::move(item))) else pvAddBackGrow(std::move(item))
+   [nothrow-move-constructible items].  In the cell model a move reads the source cell; what it leaves there is unspecified (C05_array_add_back_rvalue_refines) *)
+Definition gen_add_back_move_f (growOnReserve : bool) (items : Z -> Z) (cnt cap_ it tmp : Z) : outcome ((Z -> Z) * Z * Z) :=
+  if Z.ltb cnt cap_
+  then run_bacts growOnReserve cnt it tmp (map bact_of add_back_nogrow_stmts) items cnt cap_ false
+  else run_macts growOnReserve cnt it (map mact_of add_back_grow_move_stmts) items cnt cap_ false false true.
+
+Lemma facts_shape_more :
+  add_back_move_stmts = ["if (GetCount() < GetCapacity()) { pvAddBackNogrow(ctor{GetMemManager(), move(item)}) } else { pvAddBackGrow(move(item)) }"]%string /\
+  map mact_of add_back_grow_move_stmts = [Some MNop; Some MNop; Some MIndexOf; Some MGrow; Some MRefreshItems; Some MMoveCreateCond; Some MSetCount] /\
+  (* Insert(index, Item&&): the same alias test; InsertVar (= InsertCrt: temporary first) or InsertNogrow in place *)
+  insert_rvalue_stmts = ["decl initCount = GetCount()"; "decl grow = ((initCount + 1) > GetCapacity())"; "decl itemIndex = pvIndexOf(item)";
+    "if (grow || ((index <= itemIndex) && (itemIndex < initCount))) { InsertVar(index, move(item)) } else { InsertNogrow(*CXXThisExpr, index, move(item)) }"]%string /\
+  (* InsertCrt: the ItemHandler temporary is constructed BEFORE the growth; then InsertNogrow moves from it *)
+  insert_crt_stmts = ["decl itemHandler = ctor{GetMemManager(), forward(itemCreator)}"; "decl newCount = (GetCount() + 1)";
+    "if (newCount > GetCapacity()) { pvGrow(newCount, add) }"; "InsertNogrow(*CXXThisExpr, index, move(*operator&(itemHandler)))"]%string /\
+  (* ArrayShifter::Insert over input iterators: item k goes to index + k, one InsertCrt each *)
+  shifter_insert_input_stmts = ["typedef"; "decl memManager = GetMemManager()"; "decl count = 0";
+    "for (decl iter = ctor{move(begin)}; operator!=(iter, ctor{end}); (CStyleCastExpr , ++count)) { InsertCrt((index + count), ctor{memManager, operator*(iter)}) }"]%string /\
+  (* RemoveBack / pvRemoveBack / Clear *)
+  remove_back_stmts = ["DoStmt"; "pvRemoveBack(count)"]%string /\
+  pv_remove_back_stmts = ["decl initCount = GetCount()"; "Destroy(GetMemManager(), ((GetItems() + initCount) - count), count)"; "SetCount((initCount - count))"]%string /\
+  clear_stmts = ["if shrink { Clear() } else { pvRemoveBack(GetCount()) }"]%string /\
+  (* SetCountCrt: shrink = pvRemoveBack; grow within the capacity = construct in place, then SetCount; otherwise Reset with a creator lambda *)
+  set_count_crt_stmts = ["decl newCount = count"; "decl initCount = GetCount()"; "decl initCapacity = GetCapacity()";
+    "if (newCount <= initCount) { pvRemoveBack((initCount - newCount)) } else { if (newCount <= initCapacity) { decl items = GetItems(); decl index = initCount; try { for (; (index < newCount); ++index) { operator()(itemMultiCreator, (items + index)) } }; SetCount(newCount) } else { decl newCapacity = pvGrowCapacity(initCapacity, newCount, reserve, CXXBoolLiteralExpr); decl itemsCreator = LambdaExpr; Reset(newCapacity, newCount, itemsCreator) } }"]%string.
+Proof. repeat split; reflexivity. Qed.
+
+(* a[i] (ANY element) or an external object moved to the back, with or without reallocation: the appended cell holds the PRE-CALL value *)
+Theorem gen_add_back_move_f_spec (growOnReserve : bool) (items : Z -> Z) cnt cap_ it tmp :
+  0 <= cnt -> cnt <= cap_ -> cnt + 1 < U64 -> U64 <= tmp -> (0 <= it < cnt \/ U64 <= it) ->
+  exists items' cap', gen_add_back_move_f growOnReserve items cnt cap_ it tmp = Ok (items', cnt + 1, cap') /\
+    cnt + 1 <= cap' /\ items' cnt = items it /\ (forall j, 0 <= j < cnt -> items' j = items j).
+Proof.
+  intros H0 Hc HU Htmp Hit. unfold gen_add_back_move_f.
+  destruct facts_shape_add_back as (_ & -> & _). destruct facts_shape_more as (_ & -> & _).
+  destruct (Z.ltb_spec cnt cap_) as [Hroom|Hfull].
+  - simpl. destruct (Z.ltb_spec cnt cap_); [|lia]. destruct (Z.leb_spec (cnt + 1) cap_); [|lia].
+    eexists; eexists; split; [reflexivity|]. split; [lia|]. unfold upd. split.
+    + rewrite Z.eqb_refl. reflexivity.
+    + intros j Hj. destruct (Z.eqb_spec j cnt); [lia|reflexivity].
+  - assert (cap_ = cnt) by lia. subst cap_. simpl.
+    destruct (GrowProofs.grow_capacity_ge growOnReserve cnt (cnt + 1) 0 false) as (r & -> & Hr1 & Hr2); try (unfold U64 in *; lia).
+    simpl. destruct (Z.ltb_spec cnt r); [|lia]. simpl. destruct (Z.leb_spec (cnt + 1) r); [|lia].
+    eexists; eexists; split; [reflexivity|]. split; [lia|]. unfold upd. split.
+    + rewrite Z.eqb_refl. destruct (aliasedM cnt it); reflexivity.
+    + intros j Hj. destruct (Z.eqb_spec j cnt); [lia|reflexivity].
+Qed.
+
+(* non-vacuity / the M3 mutant: [7] full, AddBack(std::move(a[0])): re-indexing through the refreshed items pointer appends 7; using the stale
+   `item` reference (or the old items pointer) appends poison *)
+Definition cellat (k : Z) (r : outcome ((Z -> Z) * Z * Z)) : option Z := match r with Ok (f, _, _) => Some (f k) | _ => None end.
+Example stale_item_after_grow_is_wrong :
+  let items := fun j => if Z.eqb j 0 then 7 else 0 in
+  cellat 1 (run_macts true 1 0 [Some MIndexOf; Some MGrow; Some MRefreshItems; Some MMoveCreateCond; Some MSetCount] items 1 1 false false true) = Some 7 /\
+  cellat 1 (run_macts true 1 0 [Some MIndexOf; Some MRefreshItems; Some MGrow; Some MMoveCreateCond; Some MSetCount] items 1 1 false false true) = Some poison.
+Proof. vm_compute. split; reflexivity. Qed.
